@@ -23,7 +23,12 @@ def run_one(args):
         s = open(p).read()
         if m["old"] not in s:
             return i, "SKIPPED", "edit no longer applies"
-        open(p, "w").write(s.replace(m["old"], m["new"], 1))
+        s = s.replace(m["old"], m["new"], 1)
+        for o2, n2 in m.get("more", []):
+            if o2 not in s:
+                return i, "SKIPPED", "second edit no longer applies"
+            s = s.replace(o2, n2, 1)
+        open(p, "w").write(s)
         try:
             compile(open(p).read(), p, "exec")
         except SyntaxError as e:
